@@ -202,7 +202,7 @@ func runCheck(args []string) int {
 			report(fr.Key+"#generate", "obligations could not be generated: "+er, er, nil)
 		}
 		nonCanary, canaries := fr.Counts()
-		if nonCanary == 0 && len(fr.Errors) == 0 {
+		if nonCanary+fr.TrivialPost == 0 && len(fr.Errors) == 0 {
 			total++
 			report(fr.Key+"#vacuity.count", "no obligation was generated for this function", "", nil)
 		}
